@@ -202,12 +202,26 @@ def main(pid, tier, seed, replay=None):
             cases = [c for c in cases if any(w in c["src"] for w in keep)]
             plan = [p for p in plan if any(w in p["family"] for w in keep)]
         mc = mc_run(tier, env_text)
-    records = run_cases(cases)
-    env_text = envgen.mtenv_text()  # classes met while projecting
-    by_tid = {r["tid"]: r for r in records}
+    # run and validate in slices: the records of one slice (values, several inferred types each) are dropped once TLC has
+    # judged them - all of them at once took > 60 GB in the thorough tier (16 forked workers, each growing to the parent's size)
     case_by_tid = {c["tid"]: c for c in cases}
-    verdicts, states, trans, wall = tlc.validate_shards(
-        "MTInferTrace", "MTInferTrace.cfg", records, extra_files={"MTEnv.tla": env_text})
+    by_tid, verdicts, states, trans, wall = {}, [], 0, 0, 0.0
+    n_records, n_evals, nt, sample = 0, 0, set(), None
+    SLICE = 30000
+    for lo in range(0, len(cases), SLICE):
+        records = run_cases(cases[lo:lo + SLICE])
+        env_text = envgen.mtenv_text()  # classes met while projecting
+        v1, s1, t1, w1 = tlc.validate_shards("MTInferTrace", "MTInferTrace.cfg", records, extra_files={"MTEnv.tla": env_text})
+        verdicts.extend(v1)
+        states, trans, wall = states + s1, trans + t1, wall + w1
+        flagged = {v["tid"] for v in v1}
+        by_tid.update({r["tid"]: r for r in records if r["tid"] in flagged})
+        n_records += len(records)
+        n_evals += sum(len(r["runs"]) for r in records)
+        nt |= {json.dumps([r["k"], sorted(absmodel.canon(x) for x in r["vals"])]) for r in records if nontrivial(r)}
+        if sample is None and records:
+            sample = records[len(records) // 2]
+        del records
     mine = CLAUSES[pid]
     for v in verdicts:
         rec = by_tid[v["tid"]]
@@ -254,13 +268,11 @@ def main(pid, tier, seed, replay=None):
                "typed_dict_classes_checked": sum(len(r["tds"]) for r in precs), "stored_types_checked": sum(len(r["stored"]) for r in precs)}
         states += pstates
         trans += ptrans
-    nt = {json.dumps([r["k"], sorted(absmodel.canon(x) for x in r["vals"])]) for r in records if nontrivial(r)}
-    sample = records[len(records) // 2]
     cov = {
         "states": (mc.distinct if mc else 0) + states,
         "transitions": (mc.generated if mc else 0) + trans,
-        "traces_validated_against_impl": len(records),
-        "evaluations": sum(len(r["runs"]) for r in records),
+        "traces_validated_against_impl": n_records,
+        "evaluations": n_evals,
         "distinct_nontrivial": len(nt),
         "rule": "cases = (set of grammar values, k); enumerated exhaustively over TLC-exported universes where the plan "
                 "says so, seeded-random otherwise; each case is fed to the real get_type/shrink_types under several "
